@@ -31,10 +31,10 @@ type Fake struct {
 	// connection (alternatives of the environment choice); nil = every byte offset 0..n-1.
 	WriteCuts func(n int) []int
 	// DialFailable: whether a dial may fail (environment choice).
-	DialFailable bool
+	DialFailable     bool
 	DeadlineFailable bool
-	Dials        int
-	DialErrors   int
+	Dials            int
+	DialErrors       int
 }
 
 var cur *Fake
@@ -123,8 +123,8 @@ func (c *TCPConn) Close() error {
 	c.Closed = true
 	return nil
 }
-func (c *TCPConn) LocalAddr() Addr  { return fakeAddr("local") }
-func (c *TCPConn) RemoteAddr() Addr { return fakeAddr(c.Addr) }
+func (c *TCPConn) LocalAddr() Addr                   { return fakeAddr("local") }
+func (c *TCPConn) RemoteAddr() Addr                  { return fakeAddr(c.Addr) }
 func (c *TCPConn) SetDeadline(t time.Time) error     { return nil }
 func (c *TCPConn) SetReadDeadline(t time.Time) error { return nil }
 func (c *TCPConn) SetWriteDeadline(t time.Time) error {
